@@ -1,5 +1,6 @@
 import Driver.Proto
 import NutsModel.C07.Dispatch
+import NutsModel.C07.Addr
 import NutsModel.Facts.C07
 open Lean Nuts.Drv Nuts.Proto Nuts.Proto.Disp
 
@@ -77,9 +78,37 @@ def stepDisp (j : Json) : String :=
 
 end Nuts.Drv.C07Disp
 
+namespace Nuts.Drv.C07Addr
+open Nuts.Proto.Addr
+
+/-! op `addr`: `(*protocol).sendGossip` on a generated connection list, with the REGENERATED query
+    (Facts.C07.sendGossipQuery read by `queryOfSrc`; an argument the model cannot read prints `unmapped`). -/
+
+def peerOf (j : Json) : TPeer := { id := jStr j "id", did := jStr j "did", addr := jStr j "addr" }
+
+def connOf (j : Json) : Conn :=
+  { peer := peerOf j, connected := jBool j "conn", authenticated := jBool j "auth", sendOK := jBool j "ok" }
+
+def stepAddr (j : Json) : String :=
+  let p := peerOf (jObj j "peer")
+  let l := (jArr j "conns").map connOf
+  match queryOfSrc p Nuts.Facts.C07.sendGossipQuery with
+  | none => "addr unmapped"
+  | some q =>
+    let r := sendGossipWith q l
+    let tk := match r.target with
+      | some i => (match l[i]? with | some c => s!"{i}:{c.peer.key}" | none => s!"{i}:?")
+      | none => "none"
+    let owners := (List.range l.length).filter (fun i => match l[i]? with
+      | some c => c.connected && c.peer.key == p.key | none => false)
+    s!"addr pk={p.key} target={tk} cleared={r.cleared} owners=[{",".intercalate (owners.map toString)}]"
+
+end Nuts.Drv.C07Addr
+
 def step07 (d : Nuts.Drv.Proto.DSt) (j : Json) : Nuts.Drv.Proto.DSt × List String :=
   match jStr j "op" with
   | "disp" => (d, [Nuts.Drv.C07Disp.stepDisp j])
+  | "addr" => (d, [Nuts.Drv.C07Addr.stepAddr j])
   | _ => Nuts.Drv.Proto.step d j
 
 def main : IO Unit := do
